@@ -310,21 +310,34 @@ def r3(ctx):
                     ok = False
                 if not ok:
                     bad.append("%s: %s (name from %s)" % (fi.qual, norm(c)[:60], src))
-            # dynamic instantiation / dispatch through a subscripted table
-            if isinstance(c.func, ast.Subscript):
-                dyn.append((fi, c))
+            # dynamic instantiation / dispatch through a subscripted table (also when the table entry is held in a temporary)
+            fexpr = c.func
+            tr = {}
+            if isinstance(fexpr, ast.Name):
+                from .common import sym_expr
+                cn_ = cfg_of(fi).node_of(c)
+                if cn_ is not None:
+                    fexpr = sym_expr(fi, fexpr, cn_, trace=tr)
+            if isinstance(fexpr, ast.Subscript):
+                dyn.append((fi, c, fexpr, list(tr.values())))
             if isinstance(c.func, ast.Call) and isinstance(c.func.func, ast.Subscript):
-                dyn.append((fi, c.func))
+                dyn.append((fi, c.func, c.func.func, []))
     ctx.check(not bad, "C14.R3", "%s:deserialize_value" % M, "no eval/exec/pickle/import and no attribute access by a stream-derived name in the decoder graph", witness=bad)
     ctx.expect("C14.R3", "table-dispatch call sites in the decoder", len(dyn), 2)
     dv = ctx.fn("%s:deserialize_value" % M)
     cfg = cfg_of(dv)
-    for (fi, c) in dyn:
-        tab = norm(c.func.value)
-        key = norm(c.func.slice)
+    from .common import sym_text
+    for (fi, c, fexpr, defsites) in dyn:
+        tab = norm(fexpr.value)
+        key = norm(fexpr.slice)
         okf = fi is dv and tab in ("deserialize_types", "registry")
         if okf:
-            conds = [(norm(t), p) for (t, p) in cfg.conditions_of(cfg.node_of(c).id)]
+            # the membership test holds where the entry is called, or where it was taken out of the table into a temporary
+            conds = []
+            for nid in [cfg.node_of(c).id] + list(defsites):
+                for (t, p) in cfg.conditions_of(nid):
+                    tn = cfg.node_of(t)
+                    conds.append((sym_text(dv, t, tn) if tn is not None else norm(t), p))
             okf = ("%s in %s" % (key, tab), True) in conds
         else:
             conds = None
